@@ -501,7 +501,12 @@ func extToLower(m *Machine, fr *frame, args []value) value {
 		return strings.ToLower(s)
 	}
 	ts := m.ts
-	return m.mapBytes(args[0], nil, func(t *Term) *Term {
+	return m.mapBytes(args[0], func(b byte) byte {
+		if b >= 'A' && b <= 'Z' {
+			return b + 32
+		}
+		return b
+	}, func(t *Term) *Term {
 		up := ts.And(ts.BVCmp("bvuge", t, ts.BVConst('A', 8)), ts.BVCmp("bvule", t, ts.BVConst('Z', 8)))
 		return ts.Ite(up, ts.BVBin("bvadd", t, ts.BVConst(32, 8)), t)
 	})
@@ -512,7 +517,12 @@ func extToUpper(m *Machine, fr *frame, args []value) value {
 		return strings.ToUpper(s)
 	}
 	ts := m.ts
-	return m.mapBytes(args[0], nil, func(t *Term) *Term {
+	return m.mapBytes(args[0], func(b byte) byte {
+		if b >= 'a' && b <= 'z' {
+			return b - 32
+		}
+		return b
+	}, func(t *Term) *Term {
 		lo := ts.And(ts.BVCmp("bvuge", t, ts.BVConst('a', 8)), ts.BVCmp("bvule", t, ts.BVConst('z', 8)))
 		return ts.Ite(lo, ts.BVBin("bvsub", t, ts.BVConst(32, 8)), t)
 	})
